@@ -164,8 +164,9 @@ def encPair (p : Nat × Nat) : String := s!"{p.1}:{p.2}"
 
 def decObj (s : String) : Obj :=
   match s.splitOn ";" with
-  | [t, ats, bs] => ⟨decStr t, decList "," decAtom ats, decList "," decPair bs⟩
-  | _ => ⟨[], [], []⟩
+  | [t, ats, bs] => ⟨decStr t, decList "," decAtom ats, decList "," decPair bs, none⟩
+  | [t, ats, bs, c] => ⟨decStr t, decList "," decAtom ats, decList "," decPair bs, if c == "-" then none else some (decStr c)⟩
+  | _ => ⟨[], [], [], none⟩
 def encLoaded (o : Loaded) : String :=
   ";".intercalate [encStr o.title, (match o.compound with | some c => encStr c | none => "-"),
     (if o.chainids then "1" else "0"), encList "," encAtom o.atoms, encList "," encPair o.bonds]
@@ -184,7 +185,245 @@ def handle (op _opts payload : String) : String :=
   else "bad-request"
 end P
 
+/-! ### FCHK field layer: `x<title>;<x run type|->;<x lot|->;<x basis|->;fields`, a field is
+`x<label>:<i|r|I|R>:<payload>`; an integer as text, a real as `[-]<mantissa>@<exponent>`, array items separated by `/`;
+loaded: `x<title>;<x run type|->;x<lot>;<x basis|->;fields`.  opts: `-` (iodata's widths) or `spec` (Gaussian's widths),
+optionally `+<label patterns separated by |>` (hex), the `label_patterns` of `_load_fchk_low`. -/
+namespace F
+open Iodata.Fmt.Fchk
+
+def decSci (s : String) : Sci :=
+  match s.splitOn "@" with
+  | [m, e] => if m.startsWith "-" then ⟨true, (m.drop 1).toString.toNat!, decInt e⟩ else ⟨false, m.toNat!, decInt e⟩
+  | _ => ⟨false, 0, 0⟩
+def encSci (x : Sci) : String := (if x.neg then "-" else "") ++ toString x.man ++ "@" ++ toString x.exp
+
+def decOpt (s : String) : Option Str := if s == "-" then none else some (decStr s)
+def encOpt (s : Option Str) : String := match s with | none => "-" | some t => encStr t
+
+def decFld (s : String) : Fld :=
+  match s.splitOn ":" with
+  | [l, k, p] =>
+    (decStr l, if k == "i" then .int (decInt p) else if k == "r" then .real (decSci p)
+      else if k == "I" then .ints (decList "/" decInt p) else .reals (decList "/" decSci p))
+  | _ => ([], .int 0)
+def encFld (f : Fld) : String :=
+  encStr f.1 ++ ":" ++ (match f.2 with
+    | .int i => "i:" ++ toString i
+    | .real x => "r:" ++ encSci x
+    | .ints l => "I:" ++ encList "/" (fun (i : Int) => toString i) l
+    | .reals l => "R:" ++ encList "/" encSci l)
+
+def decObj (s : String) : Obj :=
+  match s.splitOn ";" with
+  | [t, rt, lot, bas, fs] => ⟨decStr t, decOpt rt, decOpt lot, decOpt bas, decList "," decFld fs⟩
+  | _ => ⟨[], none, none, none, []⟩
+def encLoaded (o : Loaded) : String :=
+  ";".intercalate [encStr o.title, encOpt o.runType, encStr o.lot, encOpt o.basis, encList "," encFld o.fields]
+
+def layoutOf (opts : String) : Layout :=
+  if opts.startsWith "spec" then specG Gen.Layouts.fchkL else Gen.Layouts.fchkL
+
+def keepOf (opts : String) : Str → Bool :=
+  match opts.splitOn "+" with
+  | [_, pats] => let ps := (pats.splitOn "|").map strOfHex; fun l => ps.contains l
+  | _ => fun _ => true
+
+def intList (s : String) : List Int := decList "/" decInt s
+
+def handle (op opts payload : String) : String :=
+  let L := layoutOf opts
+  let R := Gen.Layouts.fchkRunTypes
+  if op == "dump" || op == "spec" then okHex (dump L R (decObj payload))
+  else if op == "dumpfields" then okHex ((decObj payload).fields.flatMap (dumpField L))
+  else if op == "load" then
+    match load L.reader R (keepOf opts) (linesOfHex payload) with
+    | .ok o => "ok " ++ encLoaded o
+    | .error _ => "err LoadError"
+  else if op == "tril" then
+    -- payload: n;flat row-major matrix
+    match payload.splitOn ";" with
+    | [n, m] =>
+      let n := decNat n
+      let flat := intList m
+      let rows := (List.range n).map fun i => (flat.drop (i * n)).take n
+      "ok " ++ encList "/" (fun (i : Int) => toString i) (tril rows)
+    | _ => "bad-request"
+  else if op == "dense" then
+    let t := intList payload
+    let n := triRows t.length
+    "ok " ++ toString n ++ ";" ++ encList "/" (fun (i : Int) => toString i) (dense 0 n t).flatten
+  else if op == "quadw" then "ok " ++ encList "/" (fun (i : Int) => toString i) (pick 0 Gen.Layouts.fchkQuadW (intList payload))
+  else if op == "quadr" then "ok " ++ encList "/" (fun (i : Int) => toString i) (pick 0 Gen.Layouts.fchkQuadR (intList payload))
+  else "bad-request"
+end F
+
+/-! ### Cube: `x<title>;ox:oy:oz;s0:s1:s2;ax:ay:az/bx:by:bz/cx:cy:cz;zn:q:x:y:z,…;<m@e>/<m@e>/…` -/
+namespace C
+open Iodata.Fmt.Cube
+
+def decVec (s : String) : Vec :=
+  match s.splitOn ":" with
+  | [x, y, z] => ⟨decFx x, decFx y, decFx z⟩
+  | _ => ⟨⟨false, 0⟩, ⟨false, 0⟩, ⟨false, 0⟩⟩
+def encVec (v : Vec) : String := ":".intercalate [encFx v.x, encFx v.y, encFx v.z]
+def decAtom (s : String) : Atom :=
+  match s.splitOn ":" with
+  | [zn, q, x, y, z] => ⟨decInt zn, decFx q, decFx x, decFx y, decFx z⟩
+  | _ => ⟨0, ⟨false, 0⟩, ⟨false, 0⟩, ⟨false, 0⟩, ⟨false, 0⟩⟩
+def encAtom (a : Atom) : String := ":".intercalate [toString a.zn, encFx a.q, encFx a.x, encFx a.y, encFx a.z]
+
+def decObj (s : String) : Obj :=
+  match s.splitOn ";" with
+  | [t, o, sh, ax, ats, d] =>
+    ⟨decStr t, decVec o, decList ":" decInt sh, decList "/" decVec ax, decList "," decAtom ats, decList "/" F.decSci d⟩
+  | _ => ⟨[], decVec "", [], [], [], []⟩
+def encObj (o : Obj) : String :=
+  ";".intercalate [encStr o.title, encVec o.origin, encList ":" (fun (i : Int) => toString i) o.shape, encList "/" encVec o.axes,
+    encList "," encAtom o.atoms, encList "/" F.encSci o.data]
+
+def handle (op _opts payload : String) : String :=
+  let L := Gen.Layouts.cubeL
+  if op == "dump" || op == "spec" then okHex (dump L (decObj payload))
+  else if op == "dumploop" then
+    let o := decObj payload
+    "ok " ++ hexOfStr (dataLoop L (o.shape.getD 2 0).toNat 0 o.data)
+  else if op == "load" then
+    match load L (linesOfHex payload) with
+    | .ok o => "ok " ++ encObj o
+    | .error _ => "err LoadError"
+  else "bad-request"
+end C
+
+/-! ### FCIDUMP index layer: `fcloop n` → the canonical index quadruples in the writer's order;
+`fcfill n;v:i0:i1:i2:i3,…` → the n⁴ array the reader builds (row-major) -/
+namespace FC
+open Iodata.Fmt.Fcidump Iodata.Helpers
+
+def decEntry (s : String) : Entry Int :=
+  match s.splitOn ":" with
+  | [v, a, b, c, d] => ⟨decInt v, decNat a, decNat b, decNat c, decNat d⟩
+  | _ => ⟨0, 0, 0, 0, 0⟩
+
+def handle (op _opts payload : String) : String :=
+  if op == "fcloop" then
+    let n := decNat payload
+    "ok " ++ encList "," (fun (e : Entry Int) => s!"{e.i0}:{e.i1}:{e.i2}:{e.i3}") (entries (0 : Int) n (fun _ => 1))
+  else if op == "fcfill" then
+    match payload.splitOn ";" with
+    | [n, es] =>
+      let n := decNat n
+      let a := fill (0 : Int) (decList "," decEntry es)
+      let idx := (List.range n).flatMap fun i => (List.range n).flatMap fun j => (List.range n).flatMap fun k =>
+        (List.range n).map fun l => a (i, j, k, l)
+      "ok " ++ encList "/" (fun (i : Int) => toString i) idx
+    | _ => "bad-request"
+  else "bad-request"
+end FC
+
+/-! ### MOL2: `x<title>;zn:x:y:z:<x attype|->:<charge|->,…;<i:j:t,…|->`; loaded: `x<title>;zn:x:y:z:x<attype>:charge,…;<bonds|->` -/
+namespace M
+open Iodata.Fmt.Mol2
+
+def decAtom (s : String) : Atom :=
+  match s.splitOn ":" with
+  | [zn, x, y, z, ty, q] => ⟨decNat zn, decFx x, decFx y, decFx z, F.decOpt ty, if q == "-" then none else some (decFx q)⟩
+  | _ => ⟨0, ⟨false, 0⟩, ⟨false, 0⟩, ⟨false, 0⟩, none, none⟩
+def encLAtom (a : LAtom) : String := ":".intercalate [toString a.zn, encFx a.x, encFx a.y, encFx a.z, encStr a.attype, encFx a.charge]
+def decBond (s : String) : Bond :=
+  match s.splitOn ":" with
+  | [i, j, t] => ⟨decNat i, decNat j, decNat t⟩
+  | _ => ⟨0, 0, 0⟩
+def encBond (b : Bond) : String := s!"{b.i}:{b.j}:{b.t}"
+
+def decObj (s : String) : Obj :=
+  match s.splitOn ";" with
+  | [t, ats, bs] => ⟨decStr t, decList "," decAtom ats, if bs == "-" then none else some (decList "," decBond bs)⟩
+  | _ => ⟨[], [], none⟩
+def encLoaded (o : Loaded) : String :=
+  ";".intercalate [encStr o.title, encList "," encLAtom o.atoms, match o.bonds with | none => "-" | some bs => encList "," encBond bs]
+
+def handle (op _opts payload : String) : String :=
+  let L := Gen.Layouts.mol2L
+  let T := Gen.Layouts.tables
+  if op == "dump" || op == "spec" then
+    match dumpE T L (decObj payload) with
+    | .ok ls => okHex ls
+    | .error _ => "err DumpError"
+  else if op == "load" then
+    match load T L (linesOfHex payload) with
+    | .ok o => "ok " ++ encLoaded o
+    | .error _ => "err LoadError"
+  else "bad-request"
+end M
+
+/-! ### POSCAR structure layer: `posgroup z/z/…` → `ok <written order of the atom indices>;<Z:count,…>;<expanded Z>`;
+`posfrac a:b:c:d:e:f:g:h:i;x:y:z` (integers) → the direct coordinates as exact fractions `num/den`, and back -/
+namespace PO
+open Iodata.Fmt.Poscar
+
+def encRat (q : Rat) : String := toString q.num ++ "/" ++ toString q.den
+def encV (v : V3) : String := ":".intercalate [encRat v.1, encRat v.2.1, encRat v.2.2]
+
+def handle (op _opts payload : String) : String :=
+  if op == "posgroup" then
+    let zs := decList "/" decNat payload
+    let atoms := zs.zipIdx
+    let g := group (fun (a : Nat × Nat) => a.1) atoms
+    "ok " ++ encList "/" (fun (a : Nat × Nat) => toString a.2) g ++ ";" ++
+      encList "," (fun (p : Nat × Nat) => s!"{p.1}:{p.2}") (counts (fun (a : Nat × Nat) => a.1) atoms) ++ ";" ++
+      encList "/" (fun (z : Nat) => toString z) (expand (counts (fun (a : Nat × Nat) => a.1) atoms))
+  else if op == "posfrac" then
+    match payload.splitOn ";" with
+    | [m, r] =>
+      match (m.splitOn ":").map decInt, (r.splitOn ":").map decInt with
+      | [a, b, c, d, e, f, g, h, i], [x, y, z] =>
+        let cell : M3 := ((a, b, c), (d, e, f), (g, h, i))
+        if det cell = 0 then "err singular" else
+        let s := toFrac cell (x, y, z)
+        "ok " ++ encV s ++ ";" ++ encV (toCart cell s)
+      | _, _ => "bad-request"
+    | _ => "bad-request"
+  else "bad-request"
+end PO
+
+/-! ### GRO: `x<title>;d;resnum:x<resname>:x<atname>:serial:x:y:z:<vx:vy:vz|->,…;box numbers separated by `/`;
+loaded: `x<title>;resnum:x<resname>:x<atname>:x:y:z:vx:vy:vz,…;nine cell entries separated by `/` -/
+namespace G
+open Iodata.Fmt.Gro
+
+def decAtom (s : String) : Atom :=
+  match s.splitOn ":" with
+  | [rn, a, b, ser, x, y, z, "-"] => ⟨decInt rn, decStr a, decStr b, decInt ser, decFx x, decFx y, decFx z, none⟩
+  | [rn, a, b, ser, x, y, z, vx, vy, vz] => ⟨decInt rn, decStr a, decStr b, decInt ser, decFx x, decFx y, decFx z, some (decFx vx, decFx vy, decFx vz)⟩
+  | _ => ⟨0, [], [], 0, zeroFx, zeroFx, zeroFx, none⟩
+def encLAtom (a : LAtom) : String :=
+  ":".intercalate [toString a.resnum, encStr a.resname, encStr a.atname, encFx a.x, encFx a.y, encFx a.z, encFx a.vel.1, encFx a.vel.2.1, encFx a.vel.2.2]
+
+def decObj (s : String) : Obj :=
+  match s.splitOn ";" with
+  | [t, d, ats, box] => ⟨decStr t, decNat d, decList "," decAtom ats, decList "/" decFx box⟩
+  | _ => ⟨[], 3, [], []⟩
+def encLoaded (o : Loaded) : String :=
+  ";".intercalate [encStr o.title, encList "," encLAtom o.atoms, encList "/" encFx o.cell.flatten]
+
+def handle (op _opts payload : String) : String :=
+  let L := Gen.Layouts.groL
+  if op == "spec" then okHex (specRender (decObj payload))
+  else if op == "load" then
+    match load L (linesOfHex payload) with
+    | .ok o => "ok " ++ encLoaded o
+    | .error _ => "err LoadError"
+  else "bad-request"
+end G
+
 def handle : List String → Option String
+  | ["fmt", op, "gro", opts, payload] => some (G.handle op opts payload)
+  | ["fmt", op, "poscar", opts, payload] => some (PO.handle op opts payload)
+  | ["fmt", op, "mol2", opts, payload] => some (M.handle op opts payload)
+  | ["fmt", op, "fcidump", opts, payload] => some (FC.handle op opts payload)
+  | ["fmt", op, "cube", opts, payload] => some (C.handle op opts payload)
+  | ["fmt", op, "fchk", opts, payload] => some (F.handle op opts payload)
   | ["fmt", op, "pdb", opts, payload] => some (P.handle op opts payload)
   | ["fmt", op, "xyz", opts, payload] => some (X.handle op opts payload)
   | ["fmt", op, "sdf", opts, payload] => some (S.handle op opts payload)
